@@ -182,6 +182,25 @@ def prop(spec, rec):
     require(bool(cont) == (es["kind"] != "finite"), "advertised_continuity", "is_continuous flag wrong")
     for v in allow:
         adv.append(("Interface.allowable_pilot_signals", v))
+    # a caller may do what it likes with the description it was handed (e.g. derate it to a site
+    # cap); what is advertised afterwards must still be the EVSE's own values
+    scratch = iface.infrastructure_info()
+    try:
+        np.minimum(scratch.max_pilot, 0.123, out=scratch.max_pilot)
+        scratch.min_pilot[...] = 77.0
+        for a in scratch.allowable_pilots:
+            a[...] = 0.123
+        scratch.is_continuous[...] = ~scratch.is_continuous
+    except (ValueError, TypeError):
+        pass
+    _, allow_list = iface.allowable_pilot_signals("EV-se")
+    if allow_list:
+        allow_list[0] = 0.123
+    adv.append(("Interface.max_pilot_signal (after a caller edited its copy)", iface.max_pilot_signal("EV-se")))
+    cont2, allow2 = iface.allowable_pilot_signals("EV-se")
+    require(bool(cont2) == (es["kind"] != "finite"), "advertised_continuity", "is_continuous flag changed after a caller edited its copy")
+    for v in allow2:
+        adv.append(("Interface.allowable_pilot_signals (after a caller edited its copy)", v))
     info = iface.infrastructure_info()
     k = info.get_station_index("EV-se")
     require(info.station_ids[k] == "EV-se" and k == (1 if twin is not None else 0), "station_index", lambda: "EV-se reported at index %r of %r" % (k, info.station_ids))
@@ -320,6 +339,10 @@ def cases(draw):
     hi = max(bnds) if bnds else 32.0
     extra = draw(st.lists(st.one_of(st.floats(-1, hi + 5), st.floats(0, hi + 1).map(lambda x: round(x, 2))), min_size=0, max_size=8))
     pilots = list(draw(st.permutations(grid + extra)))
+    # 0 A matters for every class (it is what an idle station is sent), also as the very first pilot
+    zero_at = draw(st.sampled_from([0, 0, None, len(pilots) // 2]))
+    if zero_at is not None:
+        pilots.insert(zero_at, 0.0)
     return {
         "evse": es,
         "with_ev": draw(st.booleans()),
